@@ -276,6 +276,10 @@ def calibration_calls_part(chk):
             with warnings.catch_warnings():
                 warnings.simplefilter('ignore')
                 bs, fx = FlowCal.excel_ui.process_beads_table(bt, W.instruments, base_dir=W.dir, verbose=False, plot=False)
+        except Exception as e:  # noqa
+            chk.violation('C10/beads/table-of-healthy-rows-aborted/%s' % type(e).__name__, {'instrument': inst, 'rows': [list(x) for x in clusters]},
+                          'five calibrated rows', '%s: %s; calibration calls so far: %r' % (type(e).__name__, str(e)[:100], calls), direction='trace')
+            continue
         finally:
             FlowCal.mef.get_transform_fxn = real
         want = []
